@@ -450,7 +450,7 @@ func main() {
 	if err != nil {
 		lib.Fatal("driver: %v", err)
 	}
-	examined := 0
+	nViol, nHold := 0, 0 // separate caps: violating disagreements are never crowded out by harmless ones
 	accepted, rejected, na := int64(0), int64(0), int64(0)
 	for i, c := range cases {
 		switch {
@@ -468,11 +468,6 @@ func main() {
 			}
 			continue
 		}
-		if examined >= 50 {
-			res.Count("disagreements_not_examined", 1)
-			continue
-		}
-		examined++
 		kind, v := "correspondence", "holds"
 		if ans[i] == goOut[i] {
 			kind = "spec"
@@ -482,6 +477,19 @@ func main() {
 		}
 		if strings.HasPrefix(goOut[i], "panic") {
 			kind = "crash"
+		}
+		if v == "violates" || kind == "crash" {
+			if nViol >= 50 {
+				res.Count("violating_disagreements_not_recorded", 1)
+				continue
+			}
+			nViol++
+		} else {
+			if nHold >= 50 {
+				res.Count("harmless_disagreements_not_recorded", 1)
+				continue
+			}
+			nHold++
 		}
 		res.AddDisagreement(lib.Disagreement{Kind: kind, Input: c, Go: goOut[i], Model: ans[i], SpecVerdict: v,
 			What: fmt.Sprintf("%s %s: spec says %s; %s", map[string]string{"e": "enumeration", "b": "bits"}[c.Kind], c.Path, specAns[i], what), Replay: c})
